@@ -197,11 +197,9 @@ impl Sink for LimitingSink {
             self.collected += chunk_len;
             self.inner.consume(chunk)?;
         } else {
-            // Need to truncate chunk - take only rows_needed rows
-            // For now, we'll take the whole chunk but track correctly
-            // A more sophisticated implementation would slice the chunk
+            // Need to truncate chunk - take only the first rows_needed rows
             self.collected += rows_needed;
-            self.inner.consume(chunk)?;
+            self.inner.consume(chunk.slice(0, rows_needed))?;
         }
 
         // Signal whether to continue
